@@ -177,6 +177,15 @@ func (p *provider) CreateScope(ctx context.Context) (Scope, error) {
 	p.scopes[s] = struct{}{}
 	p.scopesMu.Unlock()
 
+	// A scope that was closed while it was being created (by an initializer, or through its context) found nothing
+	// to detach in its Close: do not keep it
+	if atomic.LoadInt32(&s.disposed) != 0 {
+		p.scopesMu.Lock()
+		delete(p.scopes, s)
+		p.scopesMu.Unlock()
+		return nil, ErrScopeDisposed
+	}
+
 	// Auto-close on context cancellation
 	go func() {
 		<-ctx.Done()
